@@ -8,6 +8,7 @@ import (
 	"math/big"
 	"strings"
 
+	"github.com/cosmos/cosmos-sdk/crypto/keys/secp256k1"
 	sdk "github.com/cosmos/cosmos-sdk/types"
 	authtypes "github.com/cosmos/cosmos-sdk/x/auth/types"
 	distributiontypes "github.com/cosmos/cosmos-sdk/x/distribution/types"
@@ -64,7 +65,9 @@ func (c *Conc) Addr(name string) string {
 	case name == BadEmpty:
 		return ""
 	case name == BadNotBech32:
-		return "notbech32-" + hex.EncodeToString(c.h("bad")[:4])
+		s = "notbech32-" + hex.EncodeToString(c.h("bad")[:4])
+		c.addrRev[s] = name
+		return s
 	case name == "gov":
 		s = authtypes.NewModuleAddress(govtypes.ModuleName).String()
 	case name == "pool":
@@ -73,12 +76,24 @@ func (c *Conc) Addr(name string) string {
 		var id uint64
 		fmt.Sscanf(name[3:], "%d", &id)
 		s = sdk.AccAddress(fmtx.BridgeAddr(id)).String() // independent derivation of the escrow address
+	case name == "opchild":
+		s = authtypes.NewModuleAddress("opchild").String()
+	case name == "feecollector":
+		s = authtypes.NewModuleAddress(authtypes.FeeCollectorName).String()
 	default:
-		s = sdk.AccAddress(c.h("addr", name)[:20]).String()
+		s = sdk.AccAddress(c.PrivKey(name).PubKey().Address()).String()
 	}
 	c.addrRev[s] = name
 	return s
 }
+
+// PrivKey is the deterministic secp256k1 key of a named account (its address is derived from it).
+func (c *Conc) PrivKey(name string) *secp256k1.PrivKey {
+	return secp256k1.GenPrivKeyFromSecret(c.h("key", name))
+}
+
+// ValAddr is the operator address of a named validator operator.
+func (c *Conc) ValAddr(name string) sdk.ValAddress { return sdk.ValAddress(c.AddrBytes(name)) }
 
 func (c *Conc) AddrBytes(name string) sdk.AccAddress {
 	a, err := sdk.AccAddressFromBech32(c.Addr(name))
@@ -108,6 +123,11 @@ func (c *Conc) Denom(d string) string {
 		i := strings.Index(rest, "/")
 		fmt.Sscanf(rest[:i], "%d", &b)
 		s := fmtx.L2Denom(b, c.Denom(rest[i+1:]))
+		c.denomRev[s] = d
+		return s
+	}
+	if strings.HasPrefix(d, "n") { // native L2 denoms
+		s := "umin" + d[1:]
 		c.denomRev[s] = d
 		return s
 	}
